@@ -412,6 +412,23 @@ def run_one(tape, tier, prop):
                     res.violate("C16", "run_raised_before_N_words", {"mode": "random_walk", "exception": outs[0]})
     if not res.violations and len(ref.raw_base) >= 2 and t.chance(1, 4):
         edited_ruleset(t, res, wr, flag_args if not only_m else [], skip_case)
+    if not res.violations and not only_m and t.chance(1, 150 if tier == "quick" else 20):
+        # a long session (progress reporting, counters and buffers have thresholds at round numbers of words)
+        N = t.choice([100000, 100001, 131072, 250000]) + t.draw(3)
+        mode = t.choice(["random_walk", "honeywords"])
+        text, seam, r = c09.run_proc(["-r", "R", "-s", "S", "--mode", mode, "--limit", str(N)] + flag_args,
+                                     mode_rng=None if mode == "random_walk" else c09.SimRandom(t.draw(1 << 20)))
+        res.stats["sessions_of_100000_words_or_more"] += 1
+        if r.exc:
+            res.violate("C16", "run_raised_before_N_words", {"mode": mode, "limit": N, "exception": r.exc[-500:]})
+        else:
+            nl = text.count("\n")
+            if nl != N:
+                res.violate("C16", "limit_not_exact", {"mode": mode, "limit": N, "written": nl})
+            else:
+                bad = [w for w in set(text.split("\n")[:-1]) if w not in lang]
+                if bad:
+                    res.violate("C16", "word_outside_language", {"mode": mode, "word": bad[0], "limit": N})
     nstruct = len(ref.base)
     multi = any(len(g) >= 2 for g in ref.vars.values())
     res.nontrivial = digest_of([spec["base"], spec["vars"], skip_brute, skip_case]) if (nstruct >= 2 and multi) else None
